@@ -32,6 +32,11 @@ class _Inert:
         return self
 
 
+class Pallet(Batch):
+    """A user-defined kind of batch (the documented way to specialise parts is to subclass them): every batch a harness source
+    makes is one of these, so the library has to treat subclasses of Batch as batches."""
+
+
 class RecGen(PartGenerator):
     """Documented extension point generate_part_helper; records what a source made."""
 
@@ -66,7 +71,7 @@ class RecGen(PartGenerator):
                 p.start_value = self._given_value
                 parts.append(p)
                 self._log.append(p)
-            b = Batch(part_name, parts)
+            b = Pallet(part_name, parts)
             b.idx = (part_counter, None)
             self._items.append(b)
             return b
